@@ -24,9 +24,14 @@ def drivers(tier):
             dict(max_states=400000, time_budget=400))
     else:
         d['deferred-fixpoint'] = (WorldDriver(
-            'deferred-fixpoint', types=('A', 'B', 'H'), ids=(1, 2, 3),
-            explicit_ids=(1, 2), max_autos=1,
+            'deferred-fixpoint', types=('A', 'B', 'H'), ids=(1, 2),
+            explicit_ids=(1, 2), max_autos=2,
             shapes=((), ('A',), ('H',), ('B', 'H')), **common),
+            dict(max_states=1500000, time_budget=3000))
+        d['three-entities'] = (WorldDriver(
+            'three-entities', types=('A', 'H'), ids=(1, 2, 3),
+            explicit_ids=(1,), max_autos=1,
+            shapes=((), ('A',), ('A', 'H')), **common),
             dict(max_states=1500000, time_budget=3000))
     return d
 
